@@ -91,6 +91,15 @@ def native_clause_failures(seed):
                    and np.allclose([np.linalg.norm(uc3.v_a_star), np.linalg.norm(uc3.v_b_star), np.linalg.norm(uc3.v_c_star)], star3, rtol=1e-9)
                    and np.allclose(uc3.to_fractional(uc3.to_cartesian(x)), x, atol=1e-9) and np.allclose(uc3.parameters, list(L) + list(np.degrees(A)), rtol=1e-8))
             rows["rotated_cell"] = rows.get("rotated_cell", True) and bool(ok3)
+        # an EXISTING cell given new parameters (set_lengths_and_angles on a cell first built from integer-typed vectors, and on one of two cells built from the same
+        # vector array): it becomes the cell with those parameters, and the other cell is not disturbed
+        shared = np.diag([3, 4, 5])
+        e1, e2 = UnitCell(shared), UnitCell(shared)
+        keep2 = (np.array(e2.direct, dtype=float, copy=True), np.array(e2.inverse, dtype=float, copy=True))
+        e1.set_lengths_and_angles(L, A)
+        rows["reset_existing_cell"] = bool(np.allclose(np.asarray(e1.direct, dtype=float), D, rtol=1e-12, atol=1e-12) and np.allclose(np.asarray(e1.inverse, dtype=float), V, rtol=1e-9, atol=1e-12)
+                                           and np.isclose(e1.volume(), uc.volume(), rtol=1e-12) and np.allclose(np.asarray(e2.direct, dtype=float), keep2[0])
+                                           and np.allclose(np.asarray(e2.inverse, dtype=float), keep2[1]) and np.array_equal(shared, np.diag([3, 4, 5])))
         n += 1
         for k, ok in rows.items():
             if not ok and k not in fails:
